@@ -527,97 +527,150 @@ var (
 )
 
 func c16Literal(t *rapid.T) string {
-	s := rapid.SampledFrom(c16AddrPool).Draw(t, "lit")
+	s := pFrom(t, "lit", c16AddrPool)
 	a := netip.MustParseAddr(s)
 	switch {
 	case a.Is4():
-		switch rapid.IntRange(0, 5).Draw(t, "lit_form") {
-		case 0:
+		switch pIdx(t, "lit_form", 6) {
+		case 3:
 			return "[::ffff:" + s + "]"
-		case 1:
+		case 4:
 			b := a.As4()
 			return fmt.Sprintf("[::ffff:%02x%02x:%02x%02x]", b[0], b[1], b[2], b[3])
-		case 2:
+		case 5:
 			b := a.As4()
 			return fmt.Sprintf("[0:0:0:0:0:ffff:%x:%x]", int(b[0])<<8|int(b[1]), int(b[2])<<8|int(b[3]))
 		}
 		return s
 	default:
-		switch rapid.IntRange(0, 5).Draw(t, "lit_form6") {
-		case 0:
+		switch pIdx(t, "lit_form6", 6) {
+		case 3:
 			return "[" + a.StringExpanded() + "]"
-		case 1:
+		case 4:
 			return "[" + s + "%25eth0]"
-		case 2:
+		case 5:
 			return "[" + strings.ToUpper(s) + "]"
 		}
 		return "[" + s + "]"
 	}
 }
 
-func genC16URL(t *rapid.T) string {
-	switch k := rapid.IntRange(0, 19).Draw(t, "url_kind"); {
-	case k == 0:
-		return rapid.SampledFrom(c16Nasty).Draw(t, "nasty")
-	case k == 1:
-		return rapid.SampledFrom([]string{"/relative", "//evil.com/x", "../up", "?q=1", "//allowed.com@evil.com/", "///evil.com"}).Draw(t, "relative")
+var (
+	c16GoodSchemes = []string{"https://", "http://", "https://", "http://", "HTTP://", "hTTps://"}
+	c16BadSchemes  = []string{"ftp://", "file://", "gopher://", "ws://", "//", "", "http:", "https:/", "javascript:"}
+	c16Relative    = []string{"/relative", "//evil.com/x", "../up", "?q=1", "//allowed.com@evil.com/", "///evil.com", "//allowed.com/next", "/"}
+	c16Public      = []string{"93.184.216.34", "8.8.8.8", "2606:2800:220:1:248:1893:25c8:1946", "1.1.1.1", "::ffff:93.184.216.34", "2001:db8::1"}
+)
+
+// genC16URL draws a URL string; inPlay are the host names the case's resolver script talks about.
+func genC16URL(t *rapid.T, inPlay []string, location bool) string {
+	switch k := pIdx(t, "url_kind", 24); {
+	case k == 22:
+		return pFrom(t, "nasty", c16Nasty)
+	case k == 23 || (location && k >= 20):
+		return pFrom(t, "relative", c16Relative)
 	}
 	var host string
-	if rapid.IntRange(0, 2).Draw(t, "host_kind") == 0 {
+	switch k := pIdx(t, "host_kind", 20); {
+	case k < 11 && len(inPlay) > 0:
+		host = pFrom(t, "name_in_play", inPlay)
+	case k < 16:
 		host = c16Literal(t)
-	} else {
-		host = rapid.SampledFrom(c16Names).Draw(t, "name")
+	default:
+		host = pFrom(t, "name", c16Names)
 	}
-	return rapid.SampledFrom(c16Schemes).Draw(t, "scheme") + rapid.SampledFrom(c16UserInfo).Draw(t, "userinfo") + host +
-		rapid.SampledFrom(c16Ports).Draw(t, "port") + rapid.SampledFrom(c16Paths).Draw(t, "path")
+	scheme := pFrom(t, "scheme", c16GoodSchemes)
+	if pChance(t, "bad_scheme", 1, 6) {
+		scheme = pFrom(t, "scheme_bad", c16BadSchemes)
+	}
+	userinfo, port := "", ""
+	if pChance(t, "has_userinfo", 1, 5) {
+		userinfo = pFrom(t, "userinfo", c16UserInfo)
+	}
+	if pChance(t, "has_port", 1, 3) {
+		port = pFrom(t, "port", c16Ports)
+	}
+	return scheme + userinfo + host + port + pFrom(t, "path", c16Paths)
 }
 
 func genC16Rule(t *rapid.T) string {
-	if rapid.IntRange(0, 59).Draw(t, "bad_rule") == 0 {
-		return rapid.SampledFrom(c16BadRules).Draw(t, "bad")
+	if pChance(t, "bad_rule", 1, 80) {
+		return pFrom(t, "bad", c16BadRules)
 	}
-	return rapid.SampledFrom(c16Rules).Draw(t, "rule")
+	return pFrom(t, "rule", c16Rules)
+}
+
+// allow lists that often match something, so that allowed deliveries and deny/allow overlaps occur
+var c16AllowHot = []string{"allowed.com", "*.allowed.com", "*", "93.184.216.0/24", "8.8.8.8/31", "2606:2800:220:1::/64", "2000::/3", "0.0.0.0/0", "*.com", "1.1.1.1",
+	"10.0.0.0/8", "internal.corp", "evil.com", "ALLOWED.com", "allowed.com."}
+
+func genC16AllowRule(t *rapid.T) string {
+	if pChance(t, "allow_general", 1, 3) {
+		return genC16Rule(t)
+	}
+	return pFrom(t, "allow_hot", c16AllowHot)
 }
 
 func genC16Pol(t *rapid.T) C16Pol {
 	var p C16Pol
-	p.HTTPSOnly = rapid.SampledFrom([]string{"off", "off", "false", "0", "on", "true", "1", ""}).Draw(t, "https_only")
-	p.Redirects = rapid.SampledFrom([]string{"on", "on", "true", "1", "off", "0", ""}).Draw(t, "redirects")
-	p.Rebind = rapid.SampledFrom([]string{"on", "", "true", "1", "off", "off", "false", "0"}).Draw(t, "rebind")
-	if rapid.Bool().Draw(t, "has_allow") {
-		p.Allow = rapid.SliceOfN(rapid.Custom(genC16Rule), 1, 3).Draw(t, "allow")
+	p.HTTPSOnly = pFrom(t, "https_only", []string{"off", "off", "false", "0", "off", "on", "true", "1", ""})
+	p.Redirects = pFrom(t, "redirects", []string{"on", "on", "true", "1", "on", "off", "0", ""})
+	p.Rebind = pFrom(t, "rebind", []string{"on", "", "true", "1", "off", "off", "false", "0"})
+	if pChance(t, "has_allow", 2, 5) {
+		p.Allow = rapid.SliceOfN(rapid.Custom(genC16AllowRule), 1, 3).Draw(t, "allow")
 	}
-	if rapid.Bool().Draw(t, "has_deny") {
+	if pChance(t, "has_deny", 1, 2) {
 		p.Deny = rapid.SliceOfN(rapid.Custom(genC16Rule), 1, 3).Draw(t, "deny")
 	}
 	return p
 }
 
-func genC16Res(t *rapid.T) []C16Res {
-	res := rapid.SliceOfN(rapid.Custom(func(t *rapid.T) C16Res {
-		r := C16Res{Host: c16CanonHost(rapid.SampledFrom(c16Names).Draw(t, "res_host"))}
-		if rapid.IntRange(0, 9).Draw(t, "res_err") == 0 {
-			r.Err = true
-			return r
-		}
-		r.Addrs = rapid.SliceOfN(rapid.SampledFrom(c16AddrPool), 0, 4).Draw(t, "addrs")
+func genC16Answer(t *rapid.T, host string) C16Res {
+	r := C16Res{Host: c16CanonHost(host)}
+	if pChance(t, "res_err", 1, 12) {
+		r.Err = true
 		return r
-	}), 0, 5).Draw(t, "res")
-	return res
+	}
+	n := pFrom(t, "naddrs", []int{1, 1, 2, 2, 3, 4, 1, 0})
+	for i := 0; i < n; i++ {
+		if pChance(t, "public", 1, 2) {
+			r.Addrs = append(r.Addrs, pFrom(t, "addr_public", c16Public))
+		} else {
+			r.Addrs = append(r.Addrs, pFrom(t, "addr", c16AddrPool))
+		}
+	}
+	return r
 }
 
 func genC16Case(maxHops int) *rapid.Generator[C16Case] {
 	return rapid.Custom(func(t *rapid.T) C16Case {
-		c := C16Case{Pol: genC16Pol(t), URL: genC16URL(t), Res: genC16Res(t)}
+		nplay := pRange(t, "nplay", 1, 3)
+		inPlay := make([]string, 0, nplay)
+		for i := 0; i < nplay; i++ {
+			inPlay = append(inPlay, pFrom(t, "in_play", c16Names))
+		}
+		c := C16Case{Pol: genC16Pol(t), URL: genC16URL(t, inPlay, false)}
+		seen := map[string]bool{}
+		for _, h := range inPlay {
+			if ch := c16CanonHost(h); !seen[ch] && pChance(t, "scripted", 3, 4) {
+				seen[ch] = true
+				c.Res = append(c.Res, genC16Answer(t, h))
+			}
+		}
+		if pChance(t, "extra_res", 1, 5) {
+			if h := pFrom(t, "extra_host", c16Names); !seen[c16CanonHost(h)] {
+				c.Res = append(c.Res, genC16Answer(t, h))
+			}
+		}
 		if maxHops > 0 {
-			n := rapid.SampledFrom([]int{0, 0, 1, 1, 2, 3, 5, 9, 10, 11}).Draw(t, "nhops")
+			n := pFrom(t, "nhops", []int{0, 0, 1, 1, 1, 2, 2, 3, 5, 9, 10, 11})
 			if n > maxHops {
 				n = maxHops
 			}
 			c.Hops = rapid.SliceOfN(rapid.Custom(func(t *rapid.T) C16Hop {
-				return C16Hop{Code: rapid.SampledFrom(c16Codes).Draw(t, "code"), Loc: genC16URL(t)}
+				return C16Hop{Code: pFrom(t, "code", c16Codes), Loc: genC16URL(t, inPlay, true)}
 			}), n, n).Draw(t, "hops")
-			c.Final = rapid.SampledFrom([]int{200, 200, 204, 404, 500}).Draw(t, "final")
+			c.Final = pFrom(t, "final", []int{200, 200, 204, 404, 500})
 		}
 		return c
 	})
@@ -965,14 +1018,18 @@ func Fuzz_C16(f *testing.F) {
 func TestProp_C16_FuzzShape(t *testing.T) {
 	rapid.Check(t, func(rt *rapid.T) {
 		bits := rapid.Uint32().Draw(rt, "bits")
-		u := genC16URL(rt)
+		u := genC16URL(rt, nil, false)
 		loc := ""
-		if rapid.Bool().Draw(rt, "has_loc") {
-			loc = genC16URL(rt)
+		if pChance(rt, "has_loc", 1, 2) {
+			loc = genC16URL(rt, nil, true)
 		}
 		var ip []byte
-		for i, n := 0, rapid.IntRange(0, 4).Draw(rt, "nip"); i < n; i++ {
-			a := netip.MustParseAddr(rapid.SampledFrom(c16AddrPool).Draw(rt, "ip"))
+		for i, n := 0, pRange(rt, "nip", 0, 4); i < n; i++ {
+			pool := c16AddrPool
+			if pChance(rt, "ip_public", 1, 2) {
+				pool = c16Public
+			}
+			a := netip.MustParseAddr(pFrom(rt, "ip", pool))
 			if bits&(1<<27) != 0 {
 				b := a.As16()
 				ip = append(ip, b[:]...)
